@@ -55,12 +55,22 @@ theorem FileRep.take {file used es tail} (h : FileRep file used es tail) (m : Na
   simp only [List.append_assoc, List.length_append, hdr_length]
   rw [show m - (8 + (encEntries es).length) = m - used by omega]
 
+/-- the short-file guard of the source (`len(data) < 4`) does not fire on a first block that holds the counter -/
+theorem shortFile_false {data : Bytes} (h : 4 ≤ data.length) : shortFile data = false := by
+  simp [shortFile, shortFileGuard]; omega
+
+/-- … and fires on anything shorter (re-proved against the extracted guard on every run) -/
+theorem shortFile_true {data : Bytes} (h : data.length < 4) : shortFile data = true := by
+  simp [shortFile, shortFileGuard]; omega
+
 /-- the collector's file reader (two reads: one page, then the rest up to `used`) sees exactly the entries -/
 theorem FileRep.fromFile_ok {file used es tail} (h : FileRep file used es tail) (page : Nat) (hp : 4 ≤ page) :
     readAllValuesFromFile page file = .ok (scanOut 8 es) := by
   have hu := h.used_eq
   have hl := h.length
   unfold Model.MmapDict.readAllValuesFromFile
+  have hsf : shortFile (file.take page) = false := shortFile_false (by rw [List.length_take]; omega)
+  simp only [hsf, Bool.false_eq_true, if_false]
   -- the header is inside the first page
   have hhead : unpackInt (file.take page) headerPos = .ok (used : Int) := by
     refine unpackInt_le (a := []) (c := ([0, 0, 0, 0] ++ (encEntries es ++ tail)).take (page - 4)) ?_ rfl h.used_lt
